@@ -27,7 +27,7 @@ META = dict(
                           'cache_evictions_observed': 1000},
                 'thorough': {'items_checked': 150000, 'pairs_compared': 1500000, 'triples_checked': 500000,
                              'cache_evictions_observed': 20000}},
-    budget=dict(quick=1500, thorough=2400),
+    budget=dict(quick=1500, thorough=7200),
     unit_timeout=dict(quick=900, thorough=3000),
 )
 RANK = dict(pred=10, c=20, v=30, quant=40, oper=50, A=60, P=70, Q=80, O=90)
